@@ -1,12 +1,13 @@
 ------------------------------ MODULE TraceLen ------------------------------
-(* Padded trace length (C03): a power of two that accommodates the executed cycles, the range-checker
-   table and all chiplet rows plus one random row, at least MinLen, independent of any capacity hint. *)
+(* Padded trace length (C03): a power of two that accommodates the executed cycles followed by at least one HALT row
+   (decoder/main.md: the decoder trace ends in HALT rows carrying the program hash), the range-checker table and all
+   chiplet rows, plus one random row; at least MinLen; independent of any capacity hint. *)
 EXTENDS Naturals
 CONSTANT MinLen
 RECURSIVE Pow2AtLeast(_, _)
 Pow2AtLeast(n, p) == IF p >= n THEN p ELSE Pow2AtLeast(n, 2 * p)
 Max3(a, b, c) == IF a >= b /\ a >= c THEN a ELSE IF b >= c THEN b ELSE c
-Needed(main, range, chiplets) == Max3(main, range, chiplets) + 1
+Needed(main, range, chiplets) == Max3(main + 1, range, chiplets) + 1
 \* the smallest admissible length (recorded for information; minimality is not part of the property)
 Minimal(main, range, chiplets) == Pow2AtLeast(Needed(main, range, chiplets), MinLen)
 IsPow2(n) == n >= 1 /\ Pow2AtLeast(n, 1) = n
